@@ -247,7 +247,12 @@ def c01(trace, V):
                 tol = _tol(csl, cum)
                 bad = cum > csl + tol
                 V.resid("meat_ledger", float(np.max((cum - csl) / (1 + csl))))
-                V.check("meat_ledger", not bad.any(), dict(idn, sub="cumulative"),
+                # does the rule the code documents hold? (monthly cap by the running slaughter
+                # total + cap on the horizon total) - used to tell the known class apart
+                running = np.array(tc["max_consumed_culled_kcals_each_month"], float)
+                doc_ok = bool((eat <= running + _tol(running, eat)).all()) and float(eat.sum()) <= float(co["meat_summed_consumption"]) + tol
+                V.check("meat_ledger", not bad.any(),
+                        dict(idn, sub="cumulative", documented_rule="holds" if doc_ok else "violated"),
                         lambda: {"month": first_bad(bad), "cumulative_eaten": float(cum[bad][0]), "slaughtered_so_far": float(csl[bad][0]),
                                  "total_slaughtered": float(csl[-1])},
                         "cumulative meat eaten exceeds what has been slaughtered so far")
@@ -360,25 +365,30 @@ def c03(trace, V):
     trace.c03_nontrivial = nontrivial
 
     f3, b3 = totals(final)
+    # mechanism tags that tell the recorded classes apart from anything new (DESIGN.md 9-j)
+    bumped = any(bool((bp["out_feed"] > bp["feed"] + 1e-9).any() or (bp["out_biofuel"] > bp["biofuel"] + 1e-9).any()) for bp in trace.bump)
+    mech = "feed_bumped_after_round2" if bumped else "no_bump"
+    not_hurt = (not three) or p_final >= min(p1, T) - eps
     # clause 1: starving => essentially no human-edible food to feed/biofuel, and final >= round 1
     if p_final < T - eps:
         V.ev("starving_no_feed")
         worst = (f3 + b3) / need * 100
         bad = worst > 0.1
         if bad.any():
-            V.fail("starving_no_feed", dict(idn), {
+            V.fail("starving_no_feed", dict(idn, humans_keep_min_of_round1_and_threshold=bool(not_hurt)), {
                 "final_percent_fed": p_final, "threshold": T, "month": first_bad(bad),
                 "feed_plus_biofuel_percent_of_monthly_need": float(worst[bad][0]), "max": float(worst.max())},
                 "final result is below the minimum share, yet human-edible food goes to feed/biofuel")
         if three:
-            V.check("final_not_below_round1", p_final >= p1 - eps, idn, {"final": p_final, "round1": p1, "threshold": T},
+            V.check("final_not_below_round1", p_final >= p1 - eps, dict(idn, mechanism=mech, round1_reaches_threshold=bool(p1 >= T)),
+                    {"final": p_final, "round1": p1, "threshold": T},
                     "final percent fed is lower than the no-feed round although below the minimum share")
         trace.probe("c03_starving")
     else:
         trace.probe("c03_fed")
     # clause 2: round 1 reaches the threshold => final does not fall below it
     if three and p1 >= T:
-        V.check("final_reaches_threshold", p_final >= T - eps, idn, {"final": p_final, "round1": p1, "threshold": T},
+        V.check("final_reaches_threshold", p_final >= T - eps, dict(idn, mechanism=mech), {"final": p_final, "round1": p1, "threshold": T},
                 "no-feed round reaches the minimum share but the final result falls below it")
     # clause 3: every round, every month: within demand, zero from the shut-off month
     for rec in trace.rounds:
@@ -595,3 +605,45 @@ def c18(trace, V):
                     lambda: {"month": first_bad(bad), "out": float(o[bad][0]), "demand": float(mx[bad][0]), "in": float(a[bad][0])},
                     "final adjustment raised feed/biofuel above its demand schedule")
         trace.probe("c18_bump")
+
+
+# =========================================================================== C02
+def c02(trace, V):
+    from . import reflp
+
+    for rec in trace.rounds:
+        if rec.get("status") != 1 or "optimum" not in rec:
+            continue
+        kind = rec["type"]
+        code = rec["optimum"]
+        idn = {"round_type": kind, "store": bool(rec["consts"]["STORE_FOOD_BETWEEN_YEARS"])}
+        st_c, ref_c = reflp.build_and_solve(rec, meat="code")
+        if st_c != "optimal":
+            # the reference with the code's own meat rule must be feasible whenever the code's LP was
+            V.check("optimum_is_true_optimum", False, dict(idn, cause="reference_" + st_c.split(":")[0]),
+                    {"code_optimum": code, "reference_status": st_c, "round": rec["index"] + 1},
+                    "reference LP (code's meat rule) is not solvable where the code reports an optimum")
+            continue
+        tol = 5e-5 * max(1.0, abs(ref_c))
+        V.resid("optimum_is_true_optimum", abs(code - ref_c) / max(1.0, abs(ref_c)))
+        ok = V.check("optimum_is_true_optimum", abs(code - ref_c) <= tol, dict(idn, cause="formulation"),
+                     {"code_optimum": code, "reference_optimum": ref_c, "relative": (code - ref_c) / max(1.0, abs(ref_c)),
+                      "round": rec["index"] + 1},
+                     "reported optimum differs from the independently formulated LP (same meat rule)")
+        if not ok:
+            continue
+        uses_meat_store = bool(rec["consts"]["ADD_MEAT"]) and idn["store"]
+        if not uses_meat_store:
+            continue
+        st_p, ref_p = reflp.build_and_solve(rec, meat="phys")
+        trace.probe("c02_phys_solved")
+        if st_p != "optimal":
+            V.check("optimum_physically_achievable", False, dict(idn, cause="meat_rule", how="physical_" + st_p.split(":")[0]),
+                    {"code_optimum": code, "physical_reference_status": st_p, "round": rec["index"] + 1},
+                    "with the physical meat ledger the round's problem is not feasible (pinned meat is not physical)")
+            continue
+        V.resid("optimum_physically_achievable", (code - ref_p) / max(1.0, abs(ref_p)))
+        V.check("optimum_physically_achievable", code <= ref_p + tol, dict(idn, cause="meat_rule", how="exceeds_physical_optimum"),
+                {"code_optimum": code, "physical_optimum": ref_p, "relative": (code - ref_p) / max(1.0, abs(ref_p)),
+                 "round": rec["index"] + 1},
+                "reported optimum exceeds what is achievable when meat cannot be eaten before it is slaughtered")
